@@ -333,6 +333,92 @@ theorem holds_mmas_update (N : Num F) (hfin : ∀ x, N.fin x = true)
       intro i hi' j hj'
       simpa using (allEntries_iff _ _).mp this i hi' j hj'
 
+/-- Which of several equally short sampled tours is rewarded is not fixed by the property. Whichever tour
+`best` is rewarded (or none, when no ant was sampled), the max-min update does not panic and its result
+satisfies every clause of the update property for that choice. -/
+theorem holds_mmas_update_with (N : Num F) (hfin : ∀ x, N.fin x = true)
+    (hclose : ∀ a b, N.close a b = decide (a = b))
+    (pm : PM F) (ρ hi lo : F) (best : Option (Ind F × F)) (hwf : pm.wf = true)
+    (hr : ∀ ind o, best = some (ind, o) → ∀ c ∈ ind.route, c < pm.dim)
+    (hlo : 0 ≤ lo) (hb : lo ≤ hi) :
+    ∃ pm', mmasUpdateWith pm ρ hi lo best = some pm' ∧ holdsMmasWith N pm ρ hi lo best pm' = true := by
+  obtain ⟨pm', h1, hd, hw, hg⟩ := mmasUpdateWith_spec pm ρ hi lo hwf best hr hb
+  refine ⟨pm', h1, ?_⟩
+  obtain ⟨g, hspec, hgsym⟩ : ∃ g : Nat → Nat → F → F,
+      (∀ i j, mmasSpecWith pm ρ hi lo best i j = clamp lo hi (g i j (pm.getD i j 0 * (1 - ρ)))) ∧
+      ∀ i j x, g i j x = g j i x := by
+    cases best with
+    | none => exact ⟨fun _ _ x => x, fun _ _ => rfl, fun _ _ _ => rfl⟩
+    | some p =>
+      obtain ⟨b, o⟩ := p
+      exact ⟨fun i j x => depositEdges (1 / o) i j (edges b.route) x, fun _ _ => rfl,
+        fun i j x => depositEdges_symm _ i j _ x⟩
+  have hget : ∀ i j, i < pm.dim → j < pm.dim → ∀ d, pm'.getD i j d = mmasSpecWith pm ρ hi lo best i j :=
+    fun i j hi' hj' d => getD_of_get? pm' (hg i j hi' hj')
+  have hbnd := fun i j => clamp_bounds lo hi (g i j (pm.getD i j 0 * (1 - ρ))) hb
+  simp only [holdsMmasWith, Bool.and_eq_true, beq_iff_eq, allEntries_iff, Bool.or_eq_true, Bool.not_eq_true',
+    decide_eq_true_eq, isSym, withinBounds, hclose, hfin]
+  refine ⟨⟨⟨⟨hd, hw⟩, ?_⟩, ?_⟩, ?_⟩
+  · intro i hi' j hj'
+    rw [hget i j hi' hj']
+    refine ⟨⟨rfl, trivial⟩, ?_⟩
+    rw [hspec]
+    exact le_trans hlo (hbnd i j).1
+  · rw [hd]
+    intro i hi' j hj'
+    rw [hget i j hi' hj', hspec]
+    exact hbnd i j
+  · by_cases hs : ∀ i, i < pm.dim → ∀ j, j < pm.dim → pm.getD i j 0 = pm.getD j i 0
+    · right
+      rw [hd]
+      intro i hi' j hj'
+      rw [hget i j hi' hj', hget j i hj' hi', hspec, hspec, hs i hi' j hj', hgsym]
+    · left
+      by_contra hcon
+      apply hs
+      have : allEntries pm.dim (fun i j => decide (pm.getD i j 0 = pm.getD j i 0)) = true := by
+        simpa using hcon
+      intro i hi' j hj'
+      simpa using (allEntries_iff _ _).mp this i hi' j hj'
+
+example : ∃ pm', mmasUpdateWith (PM.new 3 (1 / 2 : ℚ)) (1 / 10) 5 1 (some (⟨[0, 2, 1], some 4⟩, 4)) = some pm' ∧
+    holdsMmasWith ratNum (PM.new 3 (1 / 2 : ℚ)) (1 / 10) 5 1 (some (⟨[0, 2, 1], some 4⟩, 4)) pm' = true :=
+  holds_mmas_update_with ratNum (fun _ => rfl) (fun _ _ => rfl) _ _ _ _ _ (by decide)
+    (by intro ind o h; cases h; decide) (by norm_num) (by norm_num)
+
+/-- The tour `min_by_key` picks (the first minimal one) is one of the tied best sampled tours. -/
+theorem first_min_is_a_best (l : List (Ind F)) (b : Ind F) (o : F) (h : firstMin l = some (b, o))
+    (ho : ∀ x ∈ l, x.obj.isSome = true) : b ∈ l ∧ b.obj = some o ∧ isMinOf l b = true := by
+  obtain ⟨hmem, hobj⟩ := firstMin_mem l b o h
+  refine ⟨hmem, hobj, ?_⟩
+  simp only [isMinOf, hobj, List.all_eq_true]
+  intro y hy
+  cases hv : y.obj with
+  | none => have := ho y hy; simp [hv] at this
+  | some v => simpa using firstMin_le l b o h y hy v hv
+
+/-- The predicate the correspondence check applies to the implementation's max-min update — "the clauses hold
+for *some* tied best sampled tour as the rewarded one" (`holdsMmasAny`) — is satisfied by the model. -/
+theorem holds_mmas_update_any (N : Num F) (hfin : ∀ x, N.fin x = true)
+    (hclose : ∀ a b, N.close a b = decide (a = b))
+    (pm : PM F) (ρ hi lo : F) (pop : List (Ind F)) (hwf : pm.wf = true)
+    (hr : routesValid pm.dim (pop.drop 1) = true) (ho : ∀ ind ∈ pop.drop 1, ind.obj.isSome = true)
+    (hlo : 0 ≤ lo) (hb : lo ≤ hi) :
+    ∃ pm', mmasUpdate pm ρ hi lo pop = some pm' ∧ holdsMmasAny N pm ρ hi lo pop pm' = true := by
+  obtain ⟨pm', h1, h2⟩ := holds_mmas_update N hfin hclose pm ρ hi lo pop hwf hr ho hlo hb
+  refine ⟨pm', h1, ?_⟩
+  rw [holdsMmas_eq_with] at h2
+  unfold holdsMmasAny
+  cases hl : pop.drop 1 with
+  | nil => simpa [hl, firstMin] using h2
+  | cons x xs =>
+    rw [hl] at h2 ho
+    obtain ⟨⟨b, o⟩, hmin⟩ := Option.isSome_iff_exists.mp (firstMin_isSome (x :: xs) (by simp) ho)
+    obtain ⟨hmem, hobj, hismin⟩ := first_min_is_a_best (x :: xs) b o hmin ho
+    rw [hmin] at h2
+    simp only [List.any_eq_true]
+    exact ⟨b, hmem, by simp [hismin, hobj, h2]⟩
+
 /-- In exact arithmetic generation cannot panic on any reachable state: with non-negative trails, positive
 distances between distinct cities, a `pow` that maps non-negative bases to non-negative values and the
 positive `1e-15` offset, every weight vector handed to `WeightedIndex::new` is legal — for every witness. -/
